@@ -503,6 +503,37 @@ def run_shard(shard, tier, seed):
         from vf.checks.c15 import fixed_trees
         for i, e in enumerate(fixed_trees()):
             probe_reads(sh, e, ('f', i))
+        # assignments to a part of a location (built through the constructor, as the lifter does): the rest of the location is
+        # preserved, so the location itself is read; locations of 16, 32, 64 and 128 bits, registers and memory cells
+        I, Id = exprgen.Int, ex.ExprId
+        p32 = Id('p32', 32)
+        locs = [Id('w16', 16), Id('e32', 32), Id('q64', 64), Id('x128', 128), ex.ExprMem(p32, 16), ex.ExprMem(p32, 64), ex.ExprMem(ex.ExprOp('+', p32, Id('i32', 32)), 32)]
+        k = 0
+        for L in locs:
+            W = irsem.width(L)
+            for (a_, b_) in ((0, 8), (8, 16), (0, 16), (0, 32), (32, 64), (16, 32), (0, 64), (64, 128), (W - 8, W)):
+                if b_ > W or (a_ == 0 and b_ == W):
+                    continue
+                src = Id('s%d' % (b_ - a_), b_ - a_) if (b_ - a_) in (8, 16, 32, 64) else None
+                if src is None:
+                    continue
+                try:
+                    e = ex.ExprAff(ex.ExprSlice(L, a_, b_), src)
+                except Exception as exn:
+                    sh.violation('aff-slice-destination/raises:%s' % type(exn).__name__, 'ExprAff(%s[%d:%d], %s) raised %r' % (L, a_, b_, src, exn), {'tree': '', 'probe': 'reads'})
+                    continue
+                k += 1
+                try:
+                    bad = irsem.typecheck(e.src) or irsem.typecheck(e.dst) or (irsem.width(e.src) != irsem.width(e.dst) and [('width', '', 'source and destination widths differ')])
+                except irsem.IllFormed as exn:
+                    bad = [('ill-formed', '', repr(exn))]
+                if bad:
+                    sh.violation('aff-slice-destination/ill-formed/w%d' % W, 'ExprAff(%s[%d:%d], %s) builds %s: %s' % (L, a_, b_, src, e, str(bad)[:120]), {'tree': '', 'probe': 'reads'})
+                    continue
+                try:
+                    probe_reads(sh, e, ('fa', k))
+                except irsem.IllFormed as exn:
+                    sh.violation('aff-slice-destination/ill-formed/w%d' % W, 'ExprAff(%s[%d:%d], %s) builds %s: %r' % (L, a_, b_, src, e, exn), {'tree': '', 'probe': 'reads'})
         return sh
     rng = common.rng_for(seed, 'C16', shard[0], shard[1])
     if shard[0] == 'reads':
